@@ -135,3 +135,104 @@ def _(p):
         if want and not numpy.allclose(numpy.asarray(sc, dtype=float), numpy.asarray(cells[:, [labels.index(nm) for nm in sl]], dtype=float)):
             return f"subset-cells: subset({S}) of {p['formula']!r} regenerates different values"
     return None
+
+
+# ------------------------------------------------------------------------------------------------ C04
+
+_A_TRAIN = [0.5, 1.25, 2.0, 3.5, 4.75, 6.0, 7.5]
+_B_TRAIN = [1.0, 7.0, 2.5, 5.5, 0.25, 3.0, 6.5]
+
+
+def _arr(mm):
+    return numpy.asarray(mm, dtype=float).reshape((-1, len(mm.model_spec.column_names)))
+
+
+@replay("c04_replay")
+def _(p):
+    import itertools
+    import pickle
+
+    from formulaic import model_matrix
+
+    n = mc.NROWS
+    df = mc.full_frame(p["a"], p["b"])
+    out = p["output"]
+    mm = model_matrix(p["formula"], df, output=out)
+    spec = mm.model_spec
+    labels = list(spec.column_names)
+    ref = _arr(mm)
+    if not numpy.all(numpy.isfinite(ref)):
+        return None
+    again = spec.get_model_matrix(df)
+    if list(again.model_spec.column_names) != labels or not numpy.allclose(_arr(again), ref, rtol=1e-9, atol=1e-9):
+        return f"original-data-not-reproduced: {p['formula']!r}: spec.get_model_matrix(training data) differs from the matrix it came from"
+    maps = [[k] for k in range(n)] + [list(q) for q in itertools.product(range(n), repeat=2)] + [[6, 2, 2], [1, 5, 0], [4, 4, 4]]
+    for sp, nm in ((spec, "spec"), (pickle.loads(pickle.dumps(spec)), "pickled spec")):
+        for pi in maps:
+            d2 = df.iloc[pi].reset_index(drop=True)
+            m2 = sp.get_model_matrix(d2)
+            if list(m2.model_spec.column_names) != labels:
+                return f"names-changed: {p['formula']!r}: {nm} on rows {pi} gives columns {list(m2.model_spec.column_names)} instead of {labels}"
+            if not numpy.allclose(_arr(m2), ref[pi], rtol=1e-9, atol=1e-9):
+                return f"rows-not-replayed: {p['formula']!r}: {nm} on training rows {pi} gives {_arr(m2).tolist()}, the recorded encoding of those rows is {ref[pi].tolist()}"
+    y = p["y"]
+    d3 = mc.full_frame([y[0], p["a"][2]], [y[1], p["b"][2]], a_rows=["z", mc.A_ROWS[2]], b_rows=["u", mc.B_ROWS[2]])
+    try:
+        m3 = _arr(spec.get_model_matrix(d3))
+        m1 = _arr(spec.get_model_matrix(d3.iloc[[0]].reset_index(drop=True)))
+    except ValueError as e:
+        if "extend beyond" in str(e):
+            return None
+        raise
+    if not numpy.allclose(m3[1], ref[2], rtol=1e-9, atol=1e-9):
+        return f"state-refitted: {p['formula']!r}: a training row mixed with new rows is encoded as {m3[1].tolist()}, at training time it was {ref[2].tolist()}"
+    if not numpy.allclose(m3[0], m1[0], rtol=1e-9, atol=1e-9, equal_nan=True):
+        return f"row-dependence: {p['formula']!r}: a new row's encoding depends on the other rows"
+    return None
+
+
+@replay("c04_follow")
+def _(p):
+    import pickle
+
+    from formulaic import model_matrix
+
+    dtrain = mc.full_frame(_A_TRAIN, _B_TRAIN)
+    mm0 = model_matrix(p["formula"], dtrain)
+    spec = mm0.model_spec
+    labels = list(spec.column_names)
+    (A0, B0), (A1, B1) = p["cats"]
+    y = p["y"]
+
+    def build(sp, rows):
+        d = mc.full_frame([r[0] for r in rows], [r[1] for r in rows], a_rows=[r[2] for r in rows], b_rows=[r[3] for r in rows])
+        m = sp.get_model_matrix(d)
+        if list(m.model_spec.column_names) != labels:
+            raise AssertionError(f"names-changed: {p['formula']!r}: follow-up columns {list(m.model_spec.column_names)} instead of {labels}")
+        return _arr(m)
+
+    r0, r1 = (y[0], y[1], A0, B0), (y[2], y[3], A1, B1)
+    try:
+        two, sw, one, dup = build(spec, [r0, r1]), build(spec, [r1, r0]), build(spec, [r0]), build(spec, [r0, r0])
+        twop = build(pickle.loads(pickle.dumps(spec)), [r0, r1])
+    except ValueError as e:
+        if "extend beyond" in str(e):
+            return None
+        raise
+    except AssertionError as e:
+        return str(e)
+    eq = lambda u, v: numpy.allclose(u, v, rtol=1e-9, atol=1e-9, equal_nan=True)
+    if not (eq(two[0], sw[1]) and eq(two[1], sw[0])):
+        return f"reorder-changes-rows: {p['formula']!r} at {y}"
+    if not eq(two[0], one[0]):
+        return f"row-dependence: {p['formula']!r}: row alone {one[0].tolist()} vs in company {two[0].tolist()} at {y}"
+    if not (eq(dup[0], one[0]) and eq(dup[1], one[0])):
+        return f"duplicate-changes-rows: {p['formula']!r} at {y}"
+    if not eq(twop, two):
+        return f"pickle-changes-behaviour: {p['formula']!r} at {y}"
+    if p.get("lost"):
+        for j, lab in enumerate(labels):
+            if any(tok in lab for tok in ("[T.y]", "[T.z]", "[y]", "[z]", "[T.v]", "[v]")) and "contr." not in lab:
+                if not numpy.allclose(two[:, j], 0):
+                    return f"lost-level-column-not-zero: {p['formula']!r}: column {lab!r} = {two[:, j].tolist()} although its level is absent"
+    return None
